@@ -1056,6 +1056,13 @@ class InterpMixin:
         )
         self.assume(ax, why="semantics of filtered list comprehension")
         k0 = self.fresh("fi", I)
+        if isinstance(v, SymOpt):
+            # the filter may guarantee that an optional element is present (`x is not None`)
+            chk = z3.Solver()
+            chk.set("timeout", 1000)
+            chk.add(cond, v.is_none)
+            if chk.check() == z3.unsat:
+                v = v.value
         tmpl = subst_value(v, [(i0, src(k0))])
         out = SymSeq(wrap(nF), None, name=f"filter({base.name})", i0=k0, template=tmpl)
         out.src = src
